@@ -1,0 +1,118 @@
+//go:build verif
+
+/*
+   Copyright The containerd Authors.
+
+   Licensed under the Apache License, Version 2.0 (the "License");
+   you may not use this file except in compliance with the License.
+   You may obtain a copy of the License at
+
+       http://www.apache.org/licenses/LICENSE-2.0
+
+   Unless required by applicable law or agreed to in writing, software
+   distributed under the License is distributed on an "AS IS" BASIS,
+   WITHOUT WARRANTIES OR CONDITIONS OF ANY KIND, either express or implied.
+   See the License for the specific language governing permissions and
+   limitations under the License.
+*/
+
+package remote
+
+// Thin wrappers exporting unexported logic of this package to the verification
+// harness (built only with -tags verif). They add no behaviour.
+
+// VerifRegionSetAdd applies regionSet.add(r) to the given slice and returns the result.
+func VerifRegionSetAdd(rs [][2]int64, r [2]int64) [][2]int64 {
+	s := regionSet{}
+	for _, x := range rs {
+		s.rs = append(s.rs, region{x[0], x[1]})
+	}
+	s.add(region{r[0], r[1]})
+	out := make([][2]int64, 0, len(s.rs))
+	for _, x := range s.rs {
+		out = append(out, [2]int64{x.b, x.e})
+	}
+	return out
+}
+
+// VerifTotalSize is regionSet.totalSize.
+func VerifTotalSize(rs [][2]int64) int64 {
+	s := regionSet{}
+	for _, x := range rs {
+		s.rs = append(s.rs, region{x[0], x[1]})
+	}
+	return s.totalSize()
+}
+
+// VerifSuperRegion is superRegion (rs must be non-empty).
+func VerifSuperRegion(rs [][2]int64) [2]int64 {
+	var regs []region
+	for _, x := range rs {
+		regs = append(regs, region{x[0], x[1]})
+	}
+	s := superRegion(regs)
+	return [2]int64{s.b, s.e}
+}
+
+// VerifBytesWriter feeds the pieces to a bytesWriter over dest (modified in place)
+// and reports whether a Write panicked or returned something else than (len(piece), nil).
+func VerifBytesWriter(dest []byte, destOff int64, pieces [][]byte) (panicked bool, badReturn bool) {
+	defer func() {
+		if r := recover(); r != nil {
+			panicked = true
+		}
+	}()
+	w := newBytesWriter(dest, destOff)
+	for _, p := range pieces {
+		n, err := w.Write(p)
+		if n != len(p) || err != nil {
+			badReturn = true
+		}
+	}
+	return
+}
+
+// VerifParseRange is parseRange with the error reduced to ok=false.
+func VerifParseRange(header string) (b, e, size int64, ok bool) {
+	reg, sz, err := parseRange(header)
+	if err != nil {
+		return 0, 0, 0, false
+	}
+	return reg.b, reg.e, sz, true
+}
+
+// VerifWalkChunks runs (*blob).walkChunks on a blob of the given size and chunk size
+// and returns the visited chunks.
+func VerifWalkChunks(size, chunkSize int64, b, e int64) (regs [][2]int64, ok bool) {
+	bl := &blob{size: size, chunkSize: chunkSize}
+	err := bl.walkChunks(region{b, e}, func(reg region) error {
+		regs = append(regs, [2]int64{reg.b, reg.e})
+		return nil
+	})
+	return regs, err == nil
+}
+
+// VerifGenID returns the cache key the blob's current fetcher uses for the chunk [b,e].
+func VerifGenID(bl Blob, b, e int64) string {
+	return bl.(*blob).getFetcher().genID(region{b, e})
+}
+
+// VerifFetchedRegions returns the blob's fetchedRegionSet.
+func VerifFetchedRegions(bl Blob) [][2]int64 {
+	x := bl.(*blob)
+	x.fetchedRegionSetMu.Lock()
+	defer x.fetchedRegionSetMu.Unlock()
+	out := make([][2]int64, 0, len(x.fetchedRegionSet.rs))
+	for _, r := range x.fetchedRegionSet.rs {
+		out = append(out, [2]int64{r.b, r.e})
+	}
+	return out
+}
+
+// VerifSingleRangeMode reports whether the blob's current HTTP fetcher is in single-range mode.
+func VerifSingleRangeMode(bl Blob) bool {
+	if hf, ok := bl.(*blob).getFetcher().(*httpFetcher); ok {
+		return hf.isSingleRangeMode()
+	}
+	return false
+}
